@@ -11,7 +11,7 @@ def xor(a, b):
 
 
 def run(ck):
-    ck.prove("Properties_C18", THEOREMS)
+    ck.prove(["Properties_C18", "Properties_Src2"], THEOREMS + ["SRC_header"])
     exe = small_driver(ck)
     env = small_env(ck)
     big = ck.tier == "thorough"
